@@ -37,6 +37,13 @@ func checkPoint(t *rapid.T, what string, got *secp256k1.Point, want ref.Pt) {
 	if c := got.CompressedBytes(); !bytes.Equal(c, want.Compressed()) {
 		t.Fatalf("%s: compressed encoding %x, want %v", what, c, want)
 	}
+	// the encodings are the point's, whatever callers did with earlier results
+	if msg := lib.EncodingsSurviveCallerWrites(got); msg != "" {
+		t.Fatalf("%s: %s", what, msg)
+	}
+	if u := lib.Pt(want).UncompressedBytes(); !bytes.Equal(u, want.Uncompressed()) {
+		t.Fatalf("%s: an independently built equal point encodes as %x after the result's encodings were overwritten, want %v", what, u, want)
+	}
 	// (b) Equal against independently constructed points
 	if got.Equal(lib.Pt(want)) != 1 || lib.Pt(want).Equal(got) != 1 {
 		t.Fatalf("%s: Equal(result, expected) != 1", what)
